@@ -96,9 +96,15 @@ func execSweep(line string) hx.Result {
 	c.pred, c.placement = f[4], f[5]
 	cont, _ := strconv.Atoi(f[6])
 	wmode, _ := strconv.Atoi(f[7])
+	// ascending, disjoint ranges from1 to1 from2 to2 ...
+	var ranges [][2]int
 	ft := strings.Fields(tail)
-	from, _ := strconv.Atoi(ft[0])
-	to, _ := strconv.Atoi(ft[1])
+	for i := 0; i+1 < len(ft); i += 2 {
+		lo, _ := strconv.Atoi(ft[i])
+		hi, _ := strconv.Atoi(ft[i+1])
+		ranges = append(ranges, [2]int{lo, hi})
+	}
+	first := ranges[0][0]
 
 	var viol []hx.OracleViolation
 	fail := func(key, format string, a ...interface{}) {
@@ -137,12 +143,6 @@ func execSweep(line string) hx.Result {
 		}
 		return true
 	}
-	for i := 0; i < from; i++ {
-		if !check("the original (before any Save)", -1, i, orig.Next(), orig) {
-			return hx.Result{Obs: "differs", Viol: viol}
-		}
-		delete(ring, i)
-	}
 	one := new(bytes.Buffer)
 	var oneW io.Writer = one
 	if wmode == 3 {
@@ -159,24 +159,41 @@ func execSweep(line string) hx.Result {
 		return true
 	}
 	good := true
-	for k := from; k <= to && good; k++ {
-		switch wmode {
-		case 0:
-			good = verify(k, c.load(save(orig)))
-		case 1, 3:
-			one.Reset()
-			orig.Save(oneW)
-			good = verify(k, c.load(one.Bytes()))
-		case 2:
-			orig.Save(oneW)
-			stream = append(stream, k)
+	pos := 0 // calls made on orig
+	keepFrom := -1 // ring entries from here on are still needed by the continuations of the previous range
+	for _, rg := range ranges {
+		from, to := rg[0], rg[1]
+		// move to the first position of the range; only the answers are compared on the way
+		for ; pos < from && good; pos++ {
+			if orig.Next() != at(pos).ok {
+				fail("C04:sweep-answer", "two undisturbed iterators disagree at call %d", pos)
+				good = false
+			}
+			if pos < keepFrom || pos >= keepFrom+cont+1 {
+				delete(ring, pos)
+			}
 		}
-		if d := len(search.VerifDump(orig).Choices); d > maxStack {
-			maxStack = d
-		}
-		// the original goes on undisturbed
-		if good && k < to {
-			good = check("the original (after Save)", k, k, orig.Next(), orig)
+		keepFrom = to
+		for k := from; k <= to && good; k++ {
+			switch wmode {
+			case 0:
+				good = verify(k, c.load(save(orig)))
+			case 1, 3:
+				one.Reset()
+				orig.Save(oneW)
+				good = verify(k, c.load(one.Bytes()))
+			case 2:
+				orig.Save(oneW)
+				stream = append(stream, k)
+			}
+			if d := len(search.VerifDump(orig).Choices); d > maxStack {
+				maxStack = d
+			}
+			// the original goes on undisturbed
+			if good && k < to {
+				good = check("the original (after Save)", k, k, orig.Next(), orig)
+				pos++
+			}
 		}
 	}
 	if wmode == 2 && good {
@@ -193,7 +210,7 @@ func execSweep(line string) hx.Result {
 			fail("C04:stream-rest", "%d bytes left in the stream after loading every save in it", r.Len())
 		}
 	}
-	res := hx.Result{Viol: viol, Nontrivial: at(from).ok}
+	res := hx.Result{Viol: viol, Nontrivial: len(viol) > 0 || at(first).ok}
 	pow := 0
 	for 1<<uint(pow+1) <= maxStack {
 		pow++
@@ -320,9 +337,17 @@ func windows(ps []int, last int) [][2]int {
 }
 
 func genSweeps(g *hx.Gen) {
-	emit := func(c config, cont, wmode, from, to int) {
-		g.Emit(fmt.Sprintf("W %s %d %d;%d %d", c.String(), cont, wmode, from, to))
+	emitR := func(c config, cont, wmode int, ranges [][2]int) {
+		var sb strings.Builder
+		for i, r := range ranges {
+			if i > 0 {
+				sb.WriteByte(' ')
+			}
+			fmt.Fprintf(&sb, "%d %d", r[0], r[1])
+		}
+		g.Emit(fmt.Sprintf("W %s %d %d;%s", c.String(), cont, wmode, sb.String()))
 	}
+	emit := func(c config, cont, wmode, from, to int) { emitR(c, cont, wmode, [][2]int{{from, to}}) }
 	idx := 0
 	// (1) complete runs, in chunks: every position, short continuation
 	whole := func(c config, chunk int) {
@@ -362,9 +387,10 @@ func genSweeps(g *hx.Gen) {
 	for _, b := range bigs {
 		for _, c := range configs(b.n, b.ms, b.preds) {
 			s := scan(c, b.limit)
-			for _, w := range windows(extremes(s), len(s.depth)-1) {
+			// all windows of one configuration in one pass
+			if ws := windows(extremes(s), len(s.depth)-1); len(ws) > 0 {
 				idx++
-				emit(c, 3+idx%3, []int{0, 1, 2}[idx%3], w[0], w[1])
+				emitR(c, 3+idx%3, []int{0, 1, 2}[idx%3], ws)
 			}
 		}
 	}
